@@ -282,13 +282,15 @@ def StoredRange (pr bs mn mx : Int) : Prop :=
   if pr = 1 then -(2 : Int) ^ (bs - 1).toNat ≤ mn ∧ mx ≤ (2 : Int) ^ (bs - 1).toNat - 1
   else 0 ≤ mn ∧ mx ≤ (2 : Int) ^ bs.toNat - 1
 
-/-- native (implicit / explicit VR little endian): route 1 = bit packing, 2 = little-endian cells; when fewer bits are
-    stored than allocated the samples must fit the stored bits -/
+/-- native (implicit / explicit VR little endian): route 1 = bit packing, 2 = little-endian cells of
+    `ceil(bits allocated / 8)` bytes (**as the code is**: a bits-allocated value that is not a multiple of 8, e.g. 12 in
+    16-bit cells as `SCImage` passes it, is accepted -- open finding C07-bits-allocated-not-byte-multiple); when fewer
+    bits are stored than allocated the samples must fit the stored bits -/
 def NativeOK (q : Req) (r : Int) : Prop :=
   (q.ts = "1.2.840.10008.1.2" ∨ q.ts = "1.2.840.10008.1.2.1") ∧
   ((q.spp = 1 ∧ monoPI q.pi) ∨ (q.spp = 3 ∧ (q.pi = "RGB" ∨ q.pi = "YBR_FULL") ∧ q.planar = some 0)) ∧
   ((q.ba = 1 ∧ (q.rows * q.cols * q.spp) % 8 = 0 ∧ r = 1) ∨
-   (q.ba ≠ 1 ∧ (q.kind = "b" ∨ q.kind = "u" ∨ q.kind = "i") ∧ q.itemsize * 8 = q.ba ∧ (q.kind = "i" ↔ q.pr = 1) ∧
+   (q.ba ≠ 1 ∧ (q.kind = "b" ∨ q.kind = "u" ∨ q.kind = "i") ∧ q.itemsize = (q.ba + 7) / 8 ∧ (q.kind = "i" ↔ q.pr = 1) ∧
     (q.bs < q.ba → StoredRange q.pr q.bs q.arrayMin q.arrayMax) ∧ r = 2))
 
 /-- JPEG baseline (lossy; route 3) -/
@@ -325,6 +327,8 @@ structure Representable (p : Params) (x : Frame) : Prop where
   pi_colour : x.spp = 3 → p.pi ∉ monochromePIs
   planar : x.ndim = 3 → p.planar = some 0 ∨ p.planar = some 1
   stored : 1 ≤ p.bitsStored ∧ p.bitsStored ≤ p.bitsAllocated
+  /-- PS3.5 8.1.1: Bits Allocated is 1 or a multiple of 8 -/
+  allocated : p.bitsAllocated = 1 ∨ p.bitsAllocated % 8 = 0
   pixrep : p.pixelRepresentation = 0 ∨ p.pixelRepresentation = 1
   native_cells : p.ts ∈ nativeSyntaxes → p.bitsAllocated ≠ 1 →
     x.dtype.isInt = true ∧ (x.dtype.itemsize : Int) * 8 = p.bitsAllocated ∧ (x.dtype.signed = true ↔ p.pixelRepresentation = 1)
